@@ -5,6 +5,7 @@
 #include "nodes/variable/variable.h"
 #include "nodes/variable/array.h"
 #include "nodes/functions/function.h"
+#include "verif_hook.h"
 
 FunctionNode::FunctionNode(
     const Token &token,
@@ -74,6 +75,11 @@ std::unique_ptr<NodeResult> FunctionCallNode::evaluate(PSC::Context &ctx) {
     if (args.size() != nArgs)
         throw PSC::InvalidArgsError(token, ctx, function->getTypes(), std::move(argTypes));
 
+#ifdef PSEUDOENGINE2_VERIF
+    verif::DepthGuard verifDepth(verif::budget().usedDepth);
+    if (verif::budget().usedDepth > verif::budget().depth)
+        throw PSC::RuntimeError(token, ctx, "VERIF budget exhausted: depth");
+#endif
     auto functionCtx = std::make_unique<PSC::Context>(&ctx, functionName, true, function->returnType);
     ctx.switchToken = &token;
 
